@@ -302,8 +302,9 @@ def showSent (probes : List Bytes) (r : Loop.Req) : String :=
 /-- The request as an origin server reads it off the wire. -/
 def showWire (probes : List Bytes) (r : Loop.Req) : String :=
   let h := wireHeaders r
-  "|".intercalate [showScheme r.url.scheme, encodeHex r.url.host, encodeHex r.url.path, encodeHex r.method,
-    encodeHex (wireHost r), b01 r.body,
+  "|".intercalate [showScheme r.url.scheme, encodeHex (dialAddr r.url), encodeHex r.url.path, encodeHex r.method,
+    -- the lanes' TLS origins negotiate HTTP/2, the plain ones speak HTTP/1.1
+    encodeHex (if r.url.scheme = .https then wireAuthority r else wireHost r), b01 r.body,
     if probes.isEmpty then "." else "/".intercalate (probes.map fun k => encodeList (wireValues h k))]
 
 def decodeCfg (ps : List (Option Policy)) (s : String) : Option Config :=
@@ -333,7 +334,7 @@ def laneWire : List String → String := runLoopLane true
 
 /-- `c11api <policies> <jar bit, AllowGetMethodPayload bit> <request S|U|H|P|M|_|B> <request headers> <request cookies>
 <common headers> <common cookies> <script> <probe keys>`: the call as the caller configured it. -/
-def laneApi : List String → String
+def runApiLane (wire : Bool) : List String → String
   | [ps, jar, req, rh, rc, ch, cc, script, probes] =>
     match decodePolicies ps, decodeHeaders rh, decodeCookies rc, decodeHeaders ch, decodeCookies cc,
         decodeScript script, decodeList probes with
@@ -343,10 +344,17 @@ def laneApi : List String → String
         let (sent, e) := apiStart ps (jar.take 1 == "1")
           { commonHeaders := ch, commonCookies := cc, allowGetPayload := jar.drop 1 != "0" }
           { url := r.url, method := r.method, headers := rh, cookies := rc, body := r.body } script
-        showEnd e ++ " " ++ toString sent.length ++ " " ++ ";".intercalate (sent.map (showSent probes))
+        showEnd e ++ " " ++ toString sent.length ++ " " ++
+          ";".intercalate (sent.map (if wire then showWire probes else showSent probes))
       | none => "bad-op"
     | _, _, _, _, _, _, _ => "bad-op"
   | _ => "bad-op"
+
+def laneApi : List String → String := runApiLane false
+
+/-- `c11apiw …`: same input as `c11api` → each request as the origin server read it off the wire
+(scheme, dial address, path, method, `Host`, body, header values). -/
+def laneApiW : List String → String := runApiLane true
 
 /-- `c11fam <ops> <j> <lane> <args…>`: lane `<lane>` with the policies client `j` of the family
 enforces. -/
@@ -361,6 +369,7 @@ def laneFam : List String → String
         | "c11loop" => laneLoop (ps :: rest)
         | "c11wire" => laneWire (ps :: rest)
         | "c11api" => laneApi (ps :: rest)
+        | "c11apiw" => laneApiW (ps :: rest)
         | _ => "bad-op"
       | none => "no-client"
     | _, _ => "bad-op"
@@ -382,6 +391,7 @@ def lanes : List (String × (List String → String)) := [
   ("c11loop", laneLoop),
   ("c11wire", laneWire),
   ("c11api", laneApi),
+  ("c11apiw", laneApiW),
   ("c11fam", laneFam)
 ]
 
